@@ -242,6 +242,8 @@ func scriptName(script []sx.Step) string {
 	s := ""
 	for _, st := range script {
 		switch {
+		case st.Err == context.Canceled:
+			s += "cE" // the source's own error happens to be context.Canceled
 		case st.Err != nil:
 			s += "E"
 		case st.Block:
@@ -293,6 +295,8 @@ func All() []Scenario {
 		mapStream(vals(3), 1, 0, 2, 2, -1, false),
 		mapStream(append(vals(2), e), 2, 0, 2, -1, -1, false),
 		mapStream([]sx.Step{e}, 2, 1, 2, -1, -1, false),
+		// the source's own error is context.Canceled
+		mapStream(append(vals(1), sx.Step{Err: context.Canceled}), 2, 0, 2, -1, -1, false),
 		mapStream(append(vals(1), e), 1, 1, 2, 0, -1, false),
 		mapStream(vals(2), 2, 2, 2, -1, 0, false),
 		mapStream(vals(3), 2, 0, 2, -1, 1, false),
